@@ -308,6 +308,9 @@ func opRT(args []string) string {
 	r := newChunkReader(args[0], frame)
 	q, rerr := pdu.ReadPDU(r)
 	s := fmt.Sprintf("ok %s => %s", canon.Hex(frame), showRead(q, rerr, r.consumed))
+	if len(frame) > 65536 {
+		return s // outside the property's domain (whole frame at most 64 KiB): ReadPDU refuses it by design
+	}
 	if rerr != nil {
 		return s + " !! C01:readpdu-failed"
 	}
